@@ -1,7 +1,11 @@
 --------------------------- MODULE MCBroadcaster ---------------------------
 EXTENDS Broadcaster
-KindsPS == <<"prompt", "stalled">>
-KindsPP == <<"prompt", "prompt">>
-BP1 == <<3>>
-BP2 == <<2, 1>>
+S(s, k) == [op |-> "sub", s |-> s, kind |-> k]
+BC == [op |-> "bc"]
+CL == [op |-> "close"]
+(* two subscribers (prompt + stalled / both prompt), broadcasters, one Close *)
+ProgsPS21 == << <<S(1, "prompt")>>, <<S(2, "stalled")>>, <<BC, BC>>, <<BC>>, <<CL>> >>
+ProgsPP21 == << <<S(1, "prompt")>>, <<S(2, "prompt")>>, <<BC, BC>>, <<BC>>, <<CL>> >>
+ProgsPS3 == << <<S(1, "prompt")>>, <<S(2, "stalled")>>, <<BC, BC, BC>>, <<CL>> >>
+ProgsTrace == << <<>>, <<>>, <<>>, <<>> >>      \* trace validation: up to 4 clients, their operations come from the trace
 =============================================================================
